@@ -29,7 +29,7 @@ CLS = {"authorization_code": 0, "access_token": 1, "refresh_token": 2, "id_token
 
 class RealSession:
     def __init__(self, oidc=True, jwt_access=False, client_over=None, revoke_refresh_on_issue=False, start=1_700_000_000,
-                 rules="explicit", empty3=False, deny=False):
+                 rules="explicit", empty3=False, deny=False, jwt_refresh=False, alias_kwargs=False):
         """rules: how the usage rules reach the provider - "explicit" (grant_config spells max_usage: 1 for codes),
         "implied" (grant_config lists supports_minting / expires_in only: the single use of a code is the library's own
         default), "per-client" (the same implied rules as token_usage_rules of every client, no grant_config rules)"""
@@ -52,7 +52,7 @@ class RealSession:
                     over.setdefault(c, {})["token_usage_rules"] = copy.deepcopy(ur)
                 authz["kwargs"]["grant_config"].pop("usage_rules")
         self.server = srv.make_server(clients=CLIENTS, client_over=over, oidc=oidc, jwt_access=jwt_access,
-                                      authz=authz, endpoints=eps)
+                                      authz=authz, endpoints=eps, jwt_refresh=jwt_refresh, alias_kwargs=alias_kwargs)
         c3 = self.server.context.cdb["client_12"]
         c3.pop("allowed_scopes", None)
         # deny: the provider-wide preference deny_unknown_scopes is on (requests asking for more than the client may have
